@@ -246,7 +246,7 @@ Ltac leaf :=
 
 Ltac crush :=
   repeat (match goal with
-  | |- context [match ?s with [] => _ | _ :: _ => _ end] => is_var s; destruct s as [|[| ? | ? | | ] ?]
+  | |- context [match ?s with [] => _ | _ :: _ => _ end] => is_var s; destruct s as [|[| ? | ? | | ? | ] ?]
   | |- context [if ?b then _ else _] => destruct b eqn:?
   end; cbn beta iota); leaf.
 
@@ -261,7 +261,7 @@ Proof.
   destruct (match cache_get_scheme (cf_flavour cf) c (rq_host rq) with
             | Some SchBasic => _ | Some SchBearer => _ | _ => _ end) as [attempted a1].
   simpl in H1.
-  destruct script as [|[| hdr | id | | ] script1]; try (leaf; fail).
+  destruct script as [|[| hdr | id | | sid | ] script1]; try (leaf; fail).
   destruct (parse hdr) as [[| |] ps] eqn:Ech; try (leaf; fail).
   - (* Basic *)
     unfold fetch_basic, final_send. crush.
@@ -370,7 +370,7 @@ Ltac bleaf :=
 
 Ltac bcrush :=
   repeat (match goal with
-  | |- context [match ?s with [] => _ | _ :: _ => _ end] => is_var s; destruct s as [|[| ? | ? | | ] ?]
+  | |- context [match ?s with [] => _ | _ :: _ => _ end] => is_var s; destruct s as [|[| ? | ? | | ? | ] ?]
   | |- context [if ?b then _ else _] => destruct b eqn:?
   end; cbn beta iota); bleaf.
 
@@ -381,7 +381,7 @@ Proof.
   unfold do_request.
   destruct (match cache_get_scheme (cf_flavour cf) c (rq_host rq) with
             | Some SchBasic => _ | Some SchBearer => _ | _ => _ end) as [attempted a1].
-  destruct script as [|[| hdr | id | | ] script1]; try (bleaf; fail).
+  destruct script as [|[| hdr | id | | sid | ] script1]; try (bleaf; fail).
   destruct (parse hdr) as [[| |] ps] eqn:Ech; try (bleaf; fail).
   - unfold fetch_basic, final_send. bcrush.
   - set (scopes := if is_empty (get_param s_scope ps) then _ else _).
@@ -453,7 +453,7 @@ Ltac fleaf :=
 
 Ltac fcrush :=
   repeat (match goal with
-  | |- context [match ?s with [] => _ | _ :: _ => _ end] => is_var s; destruct s as [|[| ? | ? | | ] ?]
+  | |- context [match ?s with [] => _ | _ :: _ => _ end] => is_var s; destruct s as [|[| ? | ? | | ? | ] ?]
   | |- context [if ?b then _ else _] => destruct b eqn:?
   end; cbn beta iota); fleaf.
 
@@ -468,7 +468,7 @@ Proof.
   unfold do_request.
   destruct (match cache_get_scheme (cf_flavour cf) c (rq_host rq) with
             | Some SchBasic => _ | Some SchBearer => _ | _ => _ end) as [attempted a1].
-  destruct script as [|[| hdr | id | | ] script1]; try (fleaf; fail).
+  destruct script as [|[| hdr | id | | sid | ] script1]; try (fleaf; fail).
   destruct (parse hdr) as [[| |] ps] eqn:Ech; try (fleaf; fail).
   - unfold fetch_basic, final_send. fcrush.
   - set (scopes := if is_empty (get_param s_scope ps) then _ else _).
@@ -535,7 +535,7 @@ Ltac kleaf :=
 
 Ltac kcrush :=
   repeat (match goal with
-  | |- context [match ?s with [] => _ | _ :: _ => _ end] => is_var s; destruct s as [|[| ? | ? | | ] ?]
+  | |- context [match ?s with [] => _ | _ :: _ => _ end] => is_var s; destruct s as [|[| ? | ? | | ? | ] ?]
   | |- context [if ?b then _ else _] => destruct b eqn:?
   end; cbn beta iota); kleaf.
 
@@ -552,7 +552,7 @@ Proof.
   destruct (match cache_get_scheme (cf_flavour cf) c (rq_host rq) with
             | Some SchBasic => _ | Some SchBearer => _ | _ => _ end) as [attempted a1].
   simpl in H1.
-  destruct script as [|[| hdr | id | | ] script1]; try (kleaf; fail).
+  destruct script as [|[| hdr | id | | sid | ] script1]; try (kleaf; fail).
   destruct (parse hdr) as [[| |] ps] eqn:Ech; try (kleaf; fail).
   - unfold fetch_basic, final_send. kcrush.
   - cbv zeta. unfold fetch_bearer_plan, final_send.
@@ -560,6 +560,41 @@ Proof.
       (destruct (str_eqb _ attempted) eqn:Ek; [kcrush|];
        match goal with |- context [cache_get_token ?f ?c0 ?h0 SchBearer ?k] =>
          destruct (cache_get_token f c0 h0 SchBearer k) as [tok2|] eqn:E2 end; kcrush).
+Qed.
+
+(* ---------- per-call statements lifted to every history ---------- *)
+Lemma run_history_lift clean cf (P : cc -> request -> list answer -> list event -> result -> Prop) :
+  (forall c rq script, let '(evs, c', r) := do_request clean parse cf c rq script in P c rq script evs r) ->
+  forall hist c,
+    Forall2 (fun rs out => exists c0, P c0 (fst rs) (snd rs) (fst out) (snd out))
+            hist (fst (run_history clean parse cf c hist)).
+Proof.
+  intros HP. induction hist as [|[rq script] hist IH]; intro c; simpl; [constructor|].
+  pose proof (HP c rq script) as D.
+  destruct (do_request clean parse cf c rq script) as [[evs c'] r].
+  specialize (IH c'). destruct (run_history clean parse cf c' hist) as [rest c'']. simpl in *.
+  constructor; auto. exists c. exact D.
+Qed.
+
+(* every call of every history: budget, outcome classification, nothing after a failed
+   send, re-used tokens only from the call's own keys *)
+Lemma history_budget_and_reuse clean cf hist c :
+  Forall2 (fun rs out => exists c0,
+             (reg_sends (fst out) <= 3)%nat /\ (fetches (fst out) <= 1)%nat /\
+             outcome_ok cf (fst rs) (fst out) (snd out) /\
+             stops_after_failure (fst out) /\
+             Forall (cached_send_ok clean (cf_flavour cf) c0 (fst rs)) (fst out))
+          hist (fst (run_history clean parse cf c hist)).
+Proof.
+  apply (run_history_lift clean cf (fun c0 rq script evs r =>
+    (reg_sends evs <= 3)%nat /\ (fetches evs <= 1)%nat /\ outcome_ok cf rq evs r /\
+    stops_after_failure evs /\ Forall (cached_send_ok clean (cf_flavour cf) c0 rq) evs)).
+  intros c0 rq script.
+  pose proof (do_request_budget clean cf c0 rq script) as B.
+  pose proof (do_request_failures clean cf c0 rq script) as F.
+  pose proof (do_request_cached_sends clean cf c0 rq script) as K.
+  destruct (do_request clean parse cf c0 rq script) as [[evs c'] r].
+  destruct B as (B1 & B2 & B3). destruct F as (F1 & _). repeat split; auto.
 Qed.
 
 End WithParse.
